@@ -31,7 +31,8 @@ From Astisub Require Import Kit.Base Kit.Str Kit.Float64 Kit.Float64x Kit.Xml Mo
   Proofs.DurProofs Proofs.TtmlBase Proofs.TtmlSpec Proofs.TtmlTime Proofs.TtmlFloat Proofs.TtmlFloat2 Proofs.TtmlTimeAll
   Proofs.TtmlLines Proofs.TtmlPara Proofs.TtmlRefs Proofs.TtmlDocSpec Proofs.TtmlDoc Kit.XmlParse Proofs.XmlParseProofs Proofs.TtmlBytes
   Proofs.TtmlRender Proofs.TtmlRenderTime Proofs.TtmlRenderDoc Proofs.TtmlReadRendered Proofs.TtmlRenderEx
-  Kit.XmlParse2 Proofs.XmlParse2Proofs Proofs.TtmlRenderBytesSpec Proofs.TtmlRenderBytes.
+  Kit.XmlParse2 Proofs.XmlParse2Proofs Proofs.TtmlRenderBytesSpec Proofs.TtmlRenderBytes
+  Kit.XmlEsc Model.TtmlGo Proofs.TtmlLegal Proofs.TtmlAudit Proofs.Parse2Written.
 Import ListNotations.
 Open Scope Z_scope.
 
@@ -209,6 +210,81 @@ Proof. exact read_rendered_bytes. Qed.
 Print Assumptions C03_read_rendered_bytes.
 Example C03_read_rendered_bytes_example : render_ok ex_rendering ex_model = true /\ bytes_ok ex_rendering ex_model = true.
 Proof. split; vm_compute; reflexivity. Qed.
+
+(* ---------------- statement audit: domains made explicit, non-vacuity ---------------- *)
+(* (a) Text that is not XML-legal.  The theorems above that mention [write_ttml_bytes] use the byte-wise escaping
+   [esc_text]; Go's xml.EscapeText additionally replaces every rune outside the XML 1.0 Char production, and every byte
+   that does not start a valid UTF-8 sequence, by U+FFFD.  [write_ttml_bytes_go] (Model/TtmlGo.v, Kit/XmlEsc.v) models
+   that exactly - it is the function the harness compares byte for byte with WriteToTTML, on legal and illegal text -
+   and coincides with [write_ttml_bytes] on legal document values; the Go-faithful round trip is
+   [C03_write_read_bytes_go], whose premise [legal_doc] cannot be dropped ([C03_illegal_text_not_round_trip]: a NUL byte
+   is written as U+FFFD and read back as U+FFFD; replayed on the library by the writer suite).  The tree-level
+   [C03_write_read] is about the token tree and relies on the XML-layer contract, which holds for legal text only. *)
+Theorem C03_escape_legal : forall s, xml_legal s = true -> esc_text_go s = esc_text s.
+Proof. exact esc_text_go_legal. Qed.
+Print Assumptions C03_escape_legal.
+Theorem C03_write_bytes_go_legal : forall d ind, repr_doc d = true -> legal_doc d = true ->
+  write_ttml_bytes_go ind d = write_ttml_bytes ind d.
+Proof. exact write_ttml_bytes_go_legal. Qed.
+Print Assumptions C03_write_bytes_go_legal.
+Theorem C03_write_read_bytes_go : forall d ind, repr_doc d = true -> legal_doc d = true -> indent_ok ind = true ->
+  exists b t, write_ttml_bytes_go ind d = Ok b /\ xml_parse b = Some t /\ read_ttml t = Ok (written_value d).
+Proof. exact write_read_bytes_go. Qed.
+Print Assumptions C03_write_read_bytes_go.
+Example C03_illegal_text_not_round_trip :
+  repr_doc illegal_doc = true /\ legal_doc illegal_doc = false /\
+  exists b t d', write_ttml_bytes_go [] illegal_doc = Ok b /\ xml_parse b = Some t /\ read_ttml t = Ok d' /\
+                 map ti_lines (td_items d') = [[[mkRun [239; 191; 189]%N None no_attrs]]].
+Proof. exact illegal_text_not_round_trip. Qed.
+(* (b) Clock times and int64.  [C03_time_clock] is stated over unbounded Z; Go's time.Duration arithmetic wraps beyond
+   2^63 - 1 ns.  Every partial sum of parseDuration is non-negative and at most the result, so the bound below is
+   exactly the domain on which Go computes the model's value; [texpr_okb] (hence [C03_read_rendered]) includes it.
+   Boundary: "2562047:47:16.854" is the last millisecond, ".855" exceeds int64 (Go wraps; harness group
+   ttml.time.malformed compares the model's out-of-range flag). *)
+Theorem C03_time_clock_int64 : forall hs ms ss fs fr tr, digits hs -> digits ms -> digits ss -> digits fs ->
+  hs <> [] -> ms <> [] -> ss <> [] -> (length fs <= 3)%nat ->
+  dval hs <= max_int64 -> dval ms <= max_int64 -> dval ss <= max_int64 -> dval fs <= max_int64 ->
+  hms_ns hs ms ss + frac_ns fs <= max_int64 ->
+  ttml_time (clock_expr hs ms ss fs) fr tr = Some (hms_ns hs ms ss + frac_ns fs) /\
+  0 <= hms_ns hs ms ss + frac_ns fs <= max_int64.
+Proof. exact clock_time_int64. Qed.
+Print Assumptions C03_time_clock_int64.
+Example C03_clock_int64_boundary :
+  ttml_time (clock_expr s_2562047 [52;55]%N [49;54]%N [56;53;52]%N) 0 0 = Some 9223372036854000000 /\
+  9223372036854000000 <= max_int64 /\
+  ttml_time (clock_expr s_2562047 [52;55]%N [49;54]%N [56;53;53]%N) 0 0 = Some 9223372036855000000 /\
+  max_int64 < 9223372036855000000.
+Proof. exact clock_int64_boundary. Qed.
+(* (c) Non-finite binary64 values.  [round_Z] returns 0 on +Inf/-Inf/NaN, where Go's int64(math.Round(x)) is
+   implementation-defined (amd64: -2^63, observed; the same for |x| >= 2^63), and an overflowing ParseFloat is an error
+   in Go.  None of this is inside a domain used here: the side conditions of the time theorems bound every instant by
+   2^49 ns, and the correspondence compares values only inside [time_simple] (at most 15 digits: all intermediates
+   below 3.6 * 10^27) and |result| < 4 * 10^18, class only outside.  [time_finite] is the explicit predicate. *)
+Example C03_nonfinite_outside_domain :
+  round_Z (Flocq.IEEE754.BinarySingleNaN.B754_infinity false) = 0 /\ time_finite (repeat 57%N 400 ++ [115]%N) 0 0 = false.
+Proof. split; [exact (proj1 (proj2 round_Z_nonfinite)) | exact (proj1 time_finite_witness)]. Qed.
+(* (d) Non-vacuity: every hypothesis list above is satisfiable (Proofs/TtmlAudit.v): [ex_time_clock] "01:02:03.5",
+   [ex_time_clock_frames] "00:00:02:12" at 25 fps, [ex_time_offset] "1.001s" = 1 001 000 000 ns, [ex_time_frames] "12.5f",
+   [ex_time_ticks] "3t"/"1t" at rate 3, [ex_time_zero_count], [ex_time_format_roundtrip]; [ex_paragraph], [ex_parents]
+   (two styles sharing a parent defined after them), [ex_refs] on the worked example of the composite theorem.
+   (e) In [C03_paragraph] the frame and tick rates are free parameters: [C03_read_rendered] instantiates them with the
+   root's frameRate/tickRate ([gd_framerate], [gd_tickrate]).  Zero rates: allowed by [render_ok] (frame/tick expressions
+   then need a zero count: [C03_time_zero_count]; a positive count with rate 0 reads as 0 - [positive_rate_needed]).
+   Unmapped or absent languages: [gd_lang = None] with any xml:lang whose first two bytes are not a mapped code
+   ([lang_ok]).  Title/copyright/elements in foreign name spaces: [C03_prefixes] (matching is by local name). *)
+Example C03_examples :
+  ttml_time (clock_expr [48;49]%N [48;50]%N [48;51]%N [53]%N) 25 0 = Some 3723500000000 /\
+  ttml_time (offset_expr [49]%N [48;48;49]%N Ms) 0 0 = Some 1001000000 /\
+  ttml_time (offset_expr [49;50]%N [53]%N Mf) 25 0 = Some 500000000 /\
+  ttml_time (offset_expr [51]%N [] Mt) 0 3 = Some 1000000000.
+Proof. exact (conj ex_time_clock (conj ex_time_offset (conj ex_time_frames (proj1 ex_time_ticks)))). Qed.
+
+(* the extended parser also inverts the writer model's bytes (every document value, every white-space indent), so it
+   agrees with the first parser there *)
+Theorem C03_parse2_written : forall d ind b, indent_ok ind = true -> write_ttml_bytes ind d = Ok b ->
+  exists t, write_ttml d = Ok t /\ xml_parse2 b = Some (indent_doc ind t).
+Proof. exact parse2_written. Qed.
+Print Assumptions C03_parse2_written.
 
 (* ---------------- totality ---------------- *)
 Theorem C03_read_total : forall root s, read_ttml root <> Panic s.
